@@ -110,7 +110,17 @@ impl<'a> SerializeSchema<'a, SchemaKey> {
 		}
 	}
 	fn str_for_ref(&self, name: &'a Name) -> Cow<'a, str> {
-		if self.parent_namespace == name.namespace() {
+		// A bare name that happens to be a type name (e.g. a fixed called "int") would be
+		// read back as that type instead of as a reference: spell those with a dot
+		let bare_name_is_a_type = matches!(
+			name.name(),
+			"null"
+				| "boolean" | "int" | "long"
+				| "float" | "double" | "bytes"
+				| "string" | "array" | "map"
+				| "record" | "enum" | "fixed"
+		);
+		if self.parent_namespace == name.namespace() && !bare_name_is_a_type {
 			Cow::Borrowed(name.name())
 		} else if name.namespace().is_none() {
 			// This syntax with the leading dot is unspecified, and it's probably impossible
